@@ -248,6 +248,7 @@ func (dq *Deque[T]) waitPushAfter(ctx context.Context, it T, afterGetter func() 
 		case <-ctx.Done():
 			return ctx.Err()
 		default:
+			verifYield("pubsub.wait.before-cond-wait")
 			cond.Wait()
 		}
 
@@ -470,6 +471,7 @@ func (it *element[T]) wait(ctx context.Context, direction dqDirection) error {
 		case <-ctx.Done():
 			return ctx.Err()
 		default:
+			verifYield("pubsub.wait.before-cond-wait")
 			cond.Wait()
 		}
 	}
